@@ -183,6 +183,14 @@ pub mod fstr {
     pub fn s_repl(s: String) -> String {
         s.replace('a', "b")
     }
+    /// idempotent; produces edge whitespace that a later `trim` has to remove
+    pub fn s_at2sp(s: String) -> String {
+        s.replace('@', " ")
+    }
+    /// idempotent; produces an upper-case letter that a later `lowercase` has to map
+    pub fn s_bang2z(s: String) -> String {
+        s.replace('!', "Z")
+    }
     /// not idempotent, interacts with lowercase
     pub fn s_prepz(s: String) -> String {
         format!("Z{s}")
